@@ -374,6 +374,7 @@ def plan(tier):
     cat = catalogue()
     units = sorted(cat)
     units += [('adjacent', c) for c in WIDE if c in cat]
+    units += [('threads', a, b) for a, b in [(0, 1), (2, 3), (1, 4)]]
     units += [('many', i) for i in range(len(many_files()))]
     nsp = sum(len(spellings(c, l)) for c, l in cat.items())
     return {
@@ -404,6 +405,11 @@ def plan(tier):
 
 def run_unit(cname, tier):
     acc = Acc()
+    if isinstance(cname, tuple) and cname[0] == 'threads':
+        # two threads, each writing and reading its own file (different inherited encodings, same line_endings values), every
+        # interleaving with <= 2 / 3 preemptions (mc/sched.py)
+        from mc import wrgraph
+        return wrgraph.run_thread_unit(cname, tier, Acc)
     if isinstance(cname, tuple) and cname[0] == 'adjacent':
         c = cname[1]
         cat = catalogue()
@@ -505,6 +511,9 @@ def replay(payload):
         viols = check_roundtrip(payload['sp'], payload['cname'],
                                 payload['le'], payload['indent'],
                                 payload['text'], payload['container'])
+    elif payload.get('kind') == 'threads':
+        from mc import wrgraph
+        viols = wrgraph.replay_threads(payload)
     elif payload.get('kind') == 'adjacent':
         viols = check_adjacent(payload['sp'], payload['cname'],
                                payload['cp'])
